@@ -1,7 +1,7 @@
 """C06 — the same site is seen through every protocol."""
 import re
 
-from common import Check, impl_run
+from common import Check, impl_run, impl_run_parallel
 import gen
 import pgsite
 import trees
@@ -69,11 +69,13 @@ def run(tier):
         ae, ah = settings[i % len(settings)]
         cfg = dict(trees.SITE_CONFIG)
         cfg["pygopherd"] = {"abstract_entries": ae, "abstract_headers": ah}
-        specs.append({"tree": trees.rich_tree(rng, hostile=True, n_hostile=10), "config": cfg, "_ae": ae})
+        specs.append({"tree": trees.rich_tree(rng, hostile=True, n_hostile=10) + trees.remote_links(rng, n=12 if i else None),
+                      "config": cfg, "_ae": ae})
     # one more world where the advertised port is not 70 (entries naming <our host>:70 are then remote)
     cfg7 = dict(trees.SITE_CONFIG)
     cfg7["pygopherd"] = {"abstract_entries": "always", "abstract_headers": "on"}
-    specs.append({"tree": trees.rich_tree(rng, hostile=True, n_hostile=4), "config": cfg7, "_ae": "always", "server_port": 7070})
+    specs.append({"tree": trees.rich_tree(rng, hostile=True, n_hostile=4) + trees.remote_links(rng, n=10), "config": cfg7,
+                  "_ae": "always", "server_port": 7070})
     all_pages = pgsite.crawl_worlds(specs)
     ndirs = ndocs = 0
     for wi, pages in enumerate(all_pages):
@@ -139,6 +141,66 @@ def run(tier):
                     chk.violation({"what": "a selector resolves to different objects in different protocols", "selector_latin1": sel,
                                    "bodies_head": {k: (v[:60].decode("latin-1") if v is not None else None) for k, v in bodies.items()},
                                    "tree": specs[wi]["tree"]}, tag="object-differs")
+
+    # ---- Gopher+ in all its request forms ----
+    # The listing of a directory is the same whatever form asks for it: "+" (plain lines), "$" (every
+    # attribute of every item; the item descriptor is the +INFO line, Gopher+ 2.7), "$" followed by a list of
+    # wanted attributes (a suggestion the server may ignore; the items are still the +INFO lines), and "!"
+    # on a listed item gives that item's own descriptor.
+    GP_FORMS = ["$", "$+INFO", "$+ABSTRACT", "$+VIEWS+ABSTRACT", "$+ADMIN", "$+INFO+ABSTRACT", "$+NOSUCH", "$+", "$+views",
+                "$ +ABSTRACT", "+"]
+    jobs, jmeta = [], []
+    for wi, pages in enumerate(all_pages):
+        dirs = sorted(set(p["selector"] for p in pages if p["proto"] == "gopher" and p["type"] == "1"))
+        reqs, meta = [], []
+        for sel in dirs:
+            for proto in ("gopherplus", "sgopherplus"):
+                for form in (GP_FORMS if proto == "gopherplus" else ["$", "$+ABSTRACT"]):
+                    data, tls = gen.request_bytes(proto, gen.sel_bytes_to_str(sel.encode("latin-1")), gplus=form)
+                    reqs.append({"data": gen.lat(data), "tls": tls})
+                    meta.append((proto, sel, form))
+        j = {"op": "world", "tree": specs[wi]["tree"], "config": specs[wi]["config"], "requests": reqs}
+        if "server_port" in specs[wi]:
+            j["server_port"] = specs[wi]["server_port"]
+        jobs.append(j)
+        jmeta.append(meta)
+    gres = impl_run_parallel(jobs, chunks=len(jobs))
+    nforms = 0
+    for wi, (r, meta) in enumerate(zip(gres, jmeta)):
+        if not r["ok"]:
+            raise RuntimeError(r["err"] + r.get("tb", ""))
+        wport = specs[wi].get("server_port", 70)
+        refs = {p["selector"]: p for p in all_pages[wi] if p["proto"] == "gopher"}
+        for (proto, sel, form), o in zip(meta, r["res"]["results"]):
+            try:
+                refview = pgsite.view_page("gopher", refs[sel]["out"].encode("latin-1"), wport)
+            except V.Malformed:
+                continue
+            nforms += 1
+            chk.count((wi, sel, proto, form), nontrivial=len(refview) > 0)
+            out = o["out"].encode("latin-1")
+            try:
+                view = pgsite.view_page(proto, out, wport) if form == "+" else pgsite.view_gplus_dir(proto, out, wport)
+            except V.Malformed as e:
+                found = True
+                chk.violation({"what": "directory not readable in this Gopher+ request form: %s" % e, "protocol": proto, "form": form,
+                               "selector_latin1": sel, "request_latin1": gen.lat(gen.request_bytes(proto, gen.sel_bytes_to_str(sel.encode("latin-1")), gplus=form)[0]),
+                               "response_latin1": o["out"][:400], "tree": specs[wi]["tree"]}, tag=f"unreadable-listing:{proto}:{form[:1]}")
+                continue
+            a, b = refview, view
+            if specs[wi]["_ae"] == "unsupported":
+                a = [x for x in a if x[0] != "info"]
+                b = [x for x in b if x[0] != "info"]
+            if a != b:
+                found = True
+                k = next((i for i in range(min(len(a), len(b))) if a[i] != b[i]), min(len(a), len(b)))
+                chk.violation({"what": "a directory shows different entries in two request forms of Gopher+", "protocol_a": "gopher",
+                               "protocol_b": proto, "form": form, "selector_latin1": sel, "first_difference_index": k,
+                               "entries_plain_gopher": len(a), "entries_this_form": len(b),
+                               "entry_a": repr(a[k]) if k < len(a) else None, "entry_b": repr(b[k]) if k < len(b) else None,
+                               "request_latin1": gen.lat(gen.request_bytes(proto, gen.sel_bytes_to_str(sel.encode("latin-1")), gplus=form)[0]),
+                               "response_head_latin1": o["out"][:300], "tree": specs[wi]["tree"]},
+                              tag=f"listing-differs:{proto}:{'$+' if form.startswith('$') and len(form) > 1 else form}")
 
     # ---- trailing slash on directory selectors ----
     tree = trees.rich_tree(rng, hostile=True, n_hostile=6)
